@@ -58,10 +58,22 @@ def _emit(ctx, stream, op, a, b):
     return []
 
 
+ARRAY_SHARE = 0.25  # share of the operand pairs that are also evaluated with Arrays (operands reused)
+
+
 def _both(ctx, stream, a, b):
     for op in ("+", "-"):
         yield from _emit(ctx, stream, op, a, b)
         yield from _emit(ctx, stream + "-swapped", op, b, a)
+    arng = ctx.__dict__.setdefault("_arng", ctx.fresh_rng("C03-array-leg"))
+    if arng.random() < ARRAY_SHARE:
+        cs = A.array_cases(ctx, "add", a, b, arng)
+        if cs:
+            _note(ctx, "array:%s:%s" % (cs[0]["_t"]["arr"]["kind"], stream))
+            d = ctx.notes.setdefault("array_leg", {})
+            d["groups"] = d.get("groups", 0) + 1
+            d["element_cases"] = d.get("element_cases", 0) + len(cs)
+        yield from cs
 
 
 def _gen(ctx, salt, max_depth, per_level, n_simple, n_odd):
@@ -151,11 +163,79 @@ def _simple_pair(t):
     return a[2], b[2]
 
 
+def _oracle_array(c, ctx):
+    """The property on Arrays, real code only: the operand OBJECTS are built once and reused for a+b, b+a,
+    (a+b)-b and a-b; every element is compared with the independent dimensional analysis of its own leaves."""
+    t = c["_t"]
+    ar = t["arr"]
+    if _has_raw(t["a"]) or _has_raw(t["b"]):
+        return None
+    db = ctx.uni.db
+    sa, sb = A.arr_sems(t["a"], ar["mult"], db), A.arr_sems(t["b"], ar["mult"], db)
+    if any(x is None for x in sa + sb) or any(x[0] != y[0] for x, y in zip(sa, sb)):
+        return None  # the property speaks about matching dimensions
+    if not all(x[2] for x in sa + sb) or any(x[1] is None or not math.isfinite(x[1]) for x in sa + sb):
+        return None  # units with an offset: the Scalar leg's business
+    import numpy
+
+    def fail(clause, **kw):
+        return _fail(clause, c, container=ar["kind"], element_multipliers=ar["mult"], **kw)
+
+    with numpy.errstate(all="ignore"):
+        try:
+            a, b = A.build_array(t["a"], ar["mult"], ar["kind"]), A.build_array(t["b"], ar["mult"], ar["kind"])
+            a0, b0 = A.elems(a), A.elems(b)
+        except Exception:
+            return None
+        try:
+            ma, mb = [x[1] for x in sa], [x[1] for x in sb]
+            n = len(a0)
+            r = a + b
+            if r.GetQuantity() != a.GetQuantity():
+                return fail("Array a+b has the left operand's units and categories", got=repr(r.GetQuantity()))
+            got = A.mags_of(r, db)
+            rv = A.elems(r)  # as returned (the result may share its container with an operand)
+            if not all(math.isfinite(x) for x in got):
+                return None
+            for i in range(n):
+                if not A.rel_close(got[i], ma[i] + mb[i], max(abs(ma[i]), abs(mb[i]))):
+                    return fail("Array a+b: element = a's element + b's element re-expressed (compared in base units)",
+                                element=i, got=got[i], want=ma[i] + mb[i])
+            r2 = b + a  # the SAME operand objects
+            got2 = A.mags_of(r2, db)
+            for i in range(n):
+                if not A.rel_close(got2[i], ma[i] + mb[i], max(abs(ma[i]), abs(mb[i]))):
+                    return fail("Array a+b and b+a (same operand objects) denote the same amount", element=i,
+                                ab_base=got[i], ba_base=got2[i], a_values_now=A.elems(a), a_values_built=a0,
+                                b_values_now=A.elems(b), b_values_built=b0)
+            back = r - b
+            if back.GetQuantity() != a.GetQuantity():
+                return fail("Array (a+b)-b has a's units and categories", got=repr(back.GetQuantity()))
+            bv = A.elems(back)
+            for i in range(n):
+                if not A.rel_close(bv[i], a0[i], max(abs(a0[i]), abs(rv[i]), abs(rv[i] - a0[i]))):
+                    return fail("Array (a+b)-b denotes a (same operand objects)", element=i, got=bv[i], want=a0[i],
+                                a_values_now=A.elems(a))
+            d = a - b
+            gd = A.mags_of(d, db)
+            for i in range(n):
+                if not A.rel_close(gd[i], ma[i] - mb[i], max(abs(ma[i]), abs(mb[i]))):
+                    return fail("Array a-b: element = a's element - b's element re-expressed (operands reused)",
+                                element=i, got=gd[i], want=ma[i] - mb[i], a_values_now=A.elems(a), a_values_built=a0)
+        except OverflowError:
+            return None
+        except Exception as e:
+            return fail("Array operation on dimension-compatible operands raised", error=repr(e))
+    return None
+
+
 def oracle(c, ctx):
     t = c["_t"]
     k = t["k"]
     if k not in ("+", "-"):
         return None
+    if t.get("arr"):
+        return _oracle_array(c, ctx)
     if _has_raw(t["a"]) or _has_raw(t["b"]):
         return None  # not "built from table units by products, quotients and powers"
     db = ctx.uni.db
